@@ -3,7 +3,8 @@ EXTENDS MCInfoLib
 CONSTANTS MaxTags
 
 \* ---- Getters corpus: multiplicity and order ----------------------------------------------------
-GKinds == {"meminfo", "cmdline", "efi_bs", "efi_mmap", "load_base_addr", "module"}
+\* "end": a type-0 tag in the middle does not end the walk - only the declared total size does
+GKinds == {"meminfo", "cmdline", "efi_bs", "efi_mmap", "load_base_addr", "module", "end"}
 RECURSIVE SeqsUpTo(_, _)
 SeqsUpTo(S, n) == IF n = 0 THEN {<<>>} ELSE {<<>>} \cup { <<x>> \o r : x \in S, r \in SeqsUpTo(S, n - 1) }
 \* long walks: a getter must still find the first match behind many other tags (also duplicates)
